@@ -222,7 +222,10 @@ struct FmSys
       Items got(b, e);
       if (reversed)
         std::reverse(got.begin(), got.end());
-      ctx.viol(cls + "|" + classify(got, items(model)), std::string("contents via ") + via + " " + show(got) + " want " + show(items(model)));
+      // begin()..end() is judged against the reference; once that agrees, a differing accessor is the accessor's fault
+      const bool primary = std::string(via).compare(0, 7, "begin()") == 0;
+      ctx.viol(primary ? cls + "|" + classify(got, items(model)) : std::string(via) + "|differs from begin()..end()",
+          std::string("contents via ") + via + " " + show(got) + " want " + show(items(model)));
       return false;
     }
 
@@ -724,6 +727,7 @@ int main(int argc, char **argv)
   FmSys<std::string, std::string> fs;
   PoSys po;
   if (vr::replaying()) {
+    sq::replay_symbolized(argv);
     std::string r = vr::S().replay;
     size_t c = r.find(':');
     std::string tag = r.substr(0, c), hist = c == std::string::npos ? "" : r.substr(c + 1);
